@@ -120,9 +120,38 @@ def _implicit_loop_inserts(fn: Fn, cgr: Term):
     return out
 
 
+def mm_transactions_for(ctx: Ctx, pid: str):
+    """MethodMap.transactions_for lifts a body to the transactions that reach it: a method to transactions_by_method[it],
+    a transaction to itself.  Every lifting of conflicts, relations and simultaneity goes through it."""
+    rule = f"{pid}.transactions-for"
+    if ctx.__dict__.setdefault("_tf_done", set()) & {pid}:
+        return
+    ctx.__dict__["_tf_done"].add(pid)
+    fn = _fn(ctx, MANAGER, "MethodMap.transactions_for", rule)
+    elem = fn.param(1)
+    rets = fn.only(Return, lambda r: r.callid is None, rule, "return")
+    is_method = None
+    ok_m = ok_t = False
+    for ex, r in rets:
+        g = py_guard(r)
+        v = r.value
+        mm = pmatch("self.transactions_by_method[Q_k]", v)
+        if mm is not None and (mm["k"] == elem or pmatch("MBody(Q_e)", mm["k"]) == {"e": elem}):
+            ats = atoms_of(g)
+            if len(ats) == 1 and pmatch("Q_e in self.transactions_by_method", ats[0]) == {"e": elem} and equivalent(g, A(ats[0])) is None:
+                ok_m, is_method = True, A(ats[0])
+    for ex, r in rets:
+        v = r.value
+        if v in (("list", elem), ("list", ("call", ("n", "TBody"), (elem,), ()))):
+            ok_t = is_method is not None and equivalent(py_guard(r), f_not(is_method)) is None
+    ctx.check(ok_m and ok_t, rule, fn.site, "MethodMap.transactions_for", found="; ".join(f"{tstr(r.value)} if {fstr(py_guard(r))}" for _, r in rets),
+              required="transactions_by_method[body] if the body is a method (a key of that map), [body] otherwise")
+
+
 def cg_implicit_edges(ctx: Ctx, pid: str):
     """C01.e/f: implicit conflict edges for every pair of distinct transactions calling the same method,
     unless every pair of their calls is exempt (nonexclusive outermost common ancestor or exclusive call paths)."""
+    mm_transactions_for(ctx, pid)
     rule = f"{pid}.implicit-edges"
     fn, cgr, pgr, _ = _cg(ctx, rule)
     ins = _implicit_loop_inserts(fn, cgr)
@@ -208,6 +237,7 @@ def _exemption_predicate(ctx: Ctx, pid: str, site: str, t: Term, t1: Term, t2: T
 def cg_relation_lifting(ctx: Ctx, pid: str):
     """C02.b/c + C07.b: every relation reaches add_edge for all pairs of calling transactions; the conflict flag
     is `relation.conflict and not transactions_exclusive`; edges enter cgr only under that flag."""
+    mm_transactions_for(ctx, pid)
     rule = f"{pid}.relation-lifting"
     fn, cgr, pgr, _ = _cg(ctx, rule)
     rel_ins = []
